@@ -335,12 +335,29 @@ def scn_run(T, case):
     T.prove("C03.run_evaluations.returns_the_results_after_signalling_them", out is results and log == ["start", "calculate", ("results", results)])
 
 
+# ------------------------------------------------------------------------------------ the success threshold of a validated configuration
+def cases_threshold(tier):
+    for ms in (None, 0, 2, 5):
+        for zero in (False, True):
+            yield "min_success=%s%s" % (ms, "/one-zero-weight" if zero else ""), {"v": "realizations", "ms": ms, "zero": zero}
+
+
+def scn_threshold(T, case):
+    """realization_min_success as this property reads it is the VALIDATED value: default and clamp are the ensemble size (a
+    zero-weight realization counts), a plain Python integer (C18's validator scenario under this property's prefix)."""
+    from contracts import C18
+    from contracts.reuse import Renamed
+
+    C18.scn_validators(Renamed(T, "C18.", "C03.config."), case)
+
+
 SCENARIOS = [
     Scenario("failure_flags", scn_flags, cases_flags, {"quick": 10, "thorough": 100}),
     Scenario("reduced_ensemble_equivalence", scn_equiv, cases_equiv, {"quick": 3, "thorough": 20}),
     Scenario("gradient_after_function_evaluation", scn_split, cases_split, {"quick": 5, "thorough": 30}),
     Scenario("failed_through_perturbations", scn_pertfail, cases_pertfail, {"quick": 5, "thorough": 30}),
     Scenario("run_evaluations", scn_run, cases_run, {"quick": 1, "thorough": 1}),
+    Scenario("validated_success_threshold", scn_threshold, cases_threshold, {"quick": 2, "thorough": 10}),
 ]
 
 MANIFEST = {
